@@ -59,6 +59,21 @@ CLAIMED = {
         "Trusted: Python's ast module. numpy-family backends only (no vmap-style nested functions are produced here).",
         "DESIGN.md §4 C17",
     ),
+    "C16": (
+        "differential property-based testing across fresh interpreters with varied PYTHONHASHSEED and deterministic uuid4 draws (Hypothesis-generated corpora)",
+        "Generated-input search over call corpora executed in 6 (quick) / 12 (thorough) child processes that differ in hash seed, uuid draw order, call order "
+        "and repetition count; outcomes must agree (ints bit-identical, floats up to re-association, same exception class) and graph=True text must be stable within a process, "
+        "also after clearing the compile cache. Exploration only.",
+        "Trusted: the child runner einxverif/c16_child.py; uuid.uuid4 is replaced inside the children to explore identifier draws deterministically (run-time interposition, no source hook).",
+        "DESIGN.md §4 C16",
+    ),
+    "C07": (
+        "metamorphic property-based testing of (long form, short form) pairs for every documented shorthand (Hypothesis)",
+        "Generated-input search: for 14 shorthand rewrites, pairs of public calls on identical data must agree in shape and value or raise the same exception class; "
+        "documented-ambiguous implicit outputs must raise SemanticError. Exploration only.",
+        "Trusted: the rewrite functions in einxverif/props/c07.py (each implements the expansion the documentation states); einx is compared with itself, C01 pins the meaning of long forms.",
+        "DESIGN.md §4 C07",
+    ),
 }
 NOT_YET = "check not built yet in this round (see DESIGN.md §8 build order); the property has an executable oracle and will be claimed once its check is registered"
 
